@@ -299,19 +299,7 @@ def eval (M : MWorld) (env : Ast.Env) : Expr → Store → R Val
         | _ => none
     | _, _, _ => none
   | .call n args, σ =>
-    if n == fmodName then
-      match args with
-      | .cons a (.cons b .nil) =>
-        match typeOf M.msig env a, typeOf M.msig env b with
-        | some ta, some tb =>
-          match convR M.P ta .float (eval M env a σ) with
-          | some (.f x, σ1) =>
-            match convR M.P tb .float (eval M env b σ1) with
-            | some (.f y, σ2) => some (.f (M.P.fbin .mod x y), σ2)
-            | _ => none
-          | _ => none
-        | _, _ => none
-      | _ => none
+    if n == fmodName then evalFmod M env args σ
     else
       match env.fres n with
       | none => none
@@ -441,6 +429,22 @@ def eval (M : MWorld) (env : Ast.Env) : Expr → Store → R Val
         | none => none
         | some (_, σ1) => eval M env b σ1
     | _ => none
+/-- `metal::fmod(a, b)`: both arguments converted to `float`, left to right; the float remainder (`Prim.fbin .mod`) -/
+def evalFmod (M : MWorld) (env : Ast.Env) : Exprs → Store → R Val
+  | .cons a (.cons b .nil), σ =>
+    match typeOf M.msig env a, typeOf M.msig env b with
+    | some ta, some tb =>
+      match convR M.P ta .float (eval M env a σ) with
+      | none => none
+      | some (x, σ1) =>
+        match convR M.P tb .float (eval M env b σ1) with
+        | none => none
+        | some (y, σ2) =>
+          match binop M.P .mod x y with
+          | none => none
+          | some r => some (r, σ2)
+    | _, _ => none
+  | _, _ => none
 /-- arguments left to right: a by-value argument is converted to the parameter type; a reference parameter binds to the
 variable the argument names, which must have exactly the parameter's type; the tag parameter takes the tag -/
 def evalArgs (M : MWorld) (env : Ast.Env) : Exprs → List (PK × Ty) → Store → Option (List MArg × Store)
